@@ -168,6 +168,51 @@ def run_byte_shard(sh, res):
     res.sample({'bytes': data.hex(), 'text': sample, 'compositions': 1 << (len(data) - 1)})
 
 
+MEDIUM_TEXTS = [
+    'id,name\r\n1,"Doe, John"\r\n2,"multi\r\nline",x\r\n#c\r\n3,end',
+    '"a""b",c\n\n#x\r"q\n\nr",z\r\rlast"',
+    'a b  c\n  d e\r\n#skip\n f \r',
+    '\ufeffk1,k2\n"v\r1",v2\n"unterminated,\nline\n',
+]
+
+
+def run_medium_shard(sh, res):
+    """scale probe: texts of 30-50 characters (several records, CRLF, comments, multi-line fields) under every delivery with at most 2 cuts
+    (deviation-bounded: one piece is the default, each cut is one deviation) and every chunk size"""
+    from vf.envs import compositions_bounded
+    rc, eng = tree.csvmod(), tree.engine()
+    text = sh['text']
+    for policy, dlm in POLICIES:
+        for has_header in (False, True):
+            for comment in (None, '#'):
+                base = read_all(rc, eng, PieceText([text]), None, dlm, policy, has_header, comment, 1024)
+                r = ref_expect(text, dlm, policy, has_header, comment, None)
+                why = compare_with_ref(base, r, has_header)
+                res.evaluations += 1
+                res.traces += 1
+                case = {'kind': 'text', 'text': text, 'policy': policy, 'dlm': dlm, 'has_header': has_header, 'comment': comment}
+                if why:
+                    res.violation('reader-vs-reference', case, r.key(), base, why)
+                for pieces in compositions_bounded(text, sh['maxcuts']):
+                    st = PieceText(pieces)
+                    got = read_all(rc, eng, st, None, dlm, policy, has_header, comment, 1024)
+                    res.evaluations += 1
+                    res.transitions += st.calls
+                    res.states += 1
+                    res.nontrivial += 1
+                    res.feat('medium_text_executions')
+                    if got != base:
+                        c = dict(case); c['pieces'] = pieces
+                        res.violation('chunk-dependence', c, base, got)
+                for cs in range(1, len(text) + 2):
+                    got = read_all(rc, eng, PieceText([text]), None, dlm, policy, has_header, comment, cs)
+                    res.evaluations += 1
+                    if got != base:
+                        c = dict(case); c['chunk_size'] = cs
+                        res.violation('chunk-size-dependence', c, base, got)
+    res.sample({'medium_text': text, 'max_cuts': sh['maxcuts']})
+
+
 def run_long_shard(sh, res):
     """scale dimension: physical lines far longer than any chunk (and than the interpreter's recursion limit in reads): the number of read() calls
     a single line spans must not matter either"""
@@ -213,7 +258,9 @@ def run_long_shard(sh, res):
 
 def run_shard(sh):
     res = core.Result()
-    if sh['kind'] == 'long':
+    if sh['kind'] == 'medium':
+        run_medium_shard(sh, res)
+    elif sh['kind'] == 'long':
         run_long_shard(sh, res)
     elif sh['kind'] == 'text':
         run_text_shard(sh, res)
@@ -241,6 +288,8 @@ def build(tier, seed):
                     shards.append({'kind': 'text', 'policy': policy, 'dlm': dlm, 'syms': s7, 'first': first + second, 'minlen': 7, 'maxlen': 7})
     for s in BYTE_SAMPLES:
         shards.append({'kind': 'bytes', 'sample': s, 'chunk_sizes': [1, 2, 1024] if tier == 'thorough' else [1, 1024]})
+    for t in MEDIUM_TEXTS:
+        shards.append({'kind': 'medium', 'text': t, 'maxcuts': 3 if tier == 'thorough' else 2})
     for L in ([1100, 2500, 70000] if tier == 'thorough' else [1100, 2500]):
         shards.append({'kind': 'long', 'length': L, 'chunk_sizes': [1, 2, 7, 64, 1023], 'piece_sizes': [1, 3, 1000]})
     return shards
@@ -250,7 +299,7 @@ def main(tier, seed):
     t0 = time.time()
     shards = build(tier, seed)
     # biggest first
-    shards.sort(key=lambda s: -(s.get('maxlen', 9) if s['kind'] != 'long' else 99))
+    shards.sort(key=lambda s: -(s.get('maxlen', 9) if s['kind'] not in ('long', 'medium') else 99))
     res = core.run_shards('vf.checks.c12', shards)
     return core.finish(PID, tier, seed, res, t0,
         rule='all texts up to the bound over {o, quote, comma, LF, CR, #, space} x all 2^(n-1) compositions of the delivery x chunk sizes 1..n+1 x 5 policies x comment '
